@@ -237,3 +237,28 @@ def check(run, prog, tier):
             run.ob("C07-e", inst, ok, "%s %s %s%s" % (g, n.get("op"), show(rhs)[:50], "" if ok else ": " + "; ".join(why)), f.file, n.get("l"), f.name,
                    what="%s sets %s from an inherit entry incorrectly (%s): with multiple inheritance the callee runs with another program's functions and variables" % (f.name, g, "; ".join(why)))
     run.need(ns >= 8, "stores to the offset globals (found %d)" % ns)
+
+    # ---- C07-f the slot apply_low consults carries the function's modifiers: alias slots included
+    run.rule("C07-f", "epilog(): every runtime slot flagged NAME_ALIAS receives the flags of the function it aliases (FUNCTION_FLAGS(i) = FUNCTION_FLAGS(which) | NAME_ALIAS) on every path through the alias branch - apply_low() reads visibility and varargs bits from whichever slot the lookup lands on", 1)
+    ep = run.need(prog.func("epilog"), "epilog")
+    run.saw(ep)
+    alias_tests = [bid for bid in ep.reachable() if ep.branch_cond(bid) is not None and facts.any_in_macro(ep.branch_cond(bid), "NAME_ALIAS") and not facts.any_in_macro(ep.branch_cond(bid), "NAME_PROTOTYPE")
+                   and strip(normalize_cond(ep.branch_cond(bid), True)[0]).get("k") == "Bin" and normalize_cond(ep.branch_cond(bid), True)[1]]
+    run.need(alias_tests, "NAME_ALIAS test in epilog")
+    ok_all = True
+    why = ""
+    for T in alias_tests:
+        c0, t0 = normalize_cond(ep.branch_cond(T), True)
+        blk = ep.blocks[T]
+        s_true = blk.succ[0] if t0 else blk.succ[1]
+        s_false = blk.succ[1] if t0 else blk.succ[0]
+        stores = {b.id for b, i, n in ep.nodes() if n.get("k") == "Asg" and n.get("op") == "=" and facts.any_in_macro(n["L"], "FUNCTION_FLAGS") and facts.any_in_macro(n["R"], "NAME_ALIAS") and facts.any_in_macro(n["R"], "FUNCTION_FLAGS")}
+        if not stores:
+            ok_all, why = False, "no store FUNCTION_FLAGS(i) = FUNCTION_FLAGS(which) | NAME_ALIAS in epilog"
+            break
+        # from the alias branch to wherever the non-alias path continues, avoiding the store
+        p = ep.reach_avoiding([s_true], lambda b2, t=s_false: b2.id == t, avoid_blocks=stores)
+        if p is not None:
+            ok_all, why = False, "path %s leaves the alias branch without copying the aliased function's flags: the alias slot keeps NAME_INHERITED|NAME_ALIAS only (no static/private/protected/varargs bits)" % (p[:8],)
+    run.ob("C07-f", "alias-flags", ok_all, "every alias slot gets the flags of the aliased function" if ok_all else why, ep.file, ep.blocks[alias_tests[0]].term.get("l") if ep.blocks[alias_tests[0]].term else ep.line, "epilog",
+           what="epilog leaves alias slots without the aliased function's modifiers: call_other can reach a static function through a program that inherits colliding definitions")
